@@ -150,3 +150,51 @@ Theorem rewrite_sound_lemma : forall (x : bytes) (body : node) (sv sr : istate),
   fst (ieval (Some x) (subst_reg x body) sr) = fst (ieval None body sv)
   /\ reg_related x (snd (ieval None body sv)) (snd (ieval (Some x) (subst_reg x body) sr)).
 Proof. intros x body. exact (sim_all x body). Qed.
+
+(* ---------- counted loops over the fragment ---------- *)
+Lemma related_at_iteration_start : forall x i sv sr,
+  others_related x sv sr ->
+  reg_related x (update x i (fst sv), snd sv) (fst sr, i).
+Proof.
+  intros x i sv sr Ho. split; simpl.
+  - rewrite bytes_eqb_refl. reflexivity.
+  - intros q Hq. rewrite bytes_eqb_sym, Hq. apply Ho; exact Hq.
+Qed.
+
+Lemma loop_rewrite_sound_lemma : forall (x : bytes) (body : node) (n : nat) (i : Z) (sv sr : istate) (last : ires),
+  others_related x sv sr ->
+  fst (iloop None x body i n sv last) <> IUnsupported ->
+  fst (iloop (Some x) x (subst_reg x body) i n sr last) = fst (iloop None x body i n sv last)
+  /\ others_related x (snd (iloop None x body i n sv last))
+                      (snd (iloop (Some x) x (subst_reg x body) i n sr last)).
+Proof.
+  intros x body n. induction n as [|n IH]; intros i sv sr last Ho Hsup; simpl in *.
+  - split; [reflexivity | exact Ho].
+  - pose proof (related_at_iteration_start x i sv sr Ho) as HR.
+    destruct (ieval None body (update x i (fst sv), snd sv)) as [rv sv1] eqn:Ev.
+    destruct (ieval (Some x) (subst_reg x body) (fst sr, i)) as [rr sr1] eqn:Er.
+    assert (Hs : rv <> IUnsupported).
+    { intro Hc; subst rv. simpl in Hsup. congruence. }
+    destruct (rewrite_sound_lemma x body _ _ HR) as [Heq HR1]; [rewrite Ev; exact Hs|].
+    rewrite Ev, Er in Heq, HR1. simpl in Heq, HR1. subst rr.
+    assert (Ho1 : others_related x sv1 sr1) by (destruct HR1 as [_ H2]; exact H2).
+    destruct rv; simpl in *.
+    + apply IH; assumption.
+    + apply IH; assumption.
+    + split; [reflexivity | exact Ho1].
+    + congruence.
+Qed.
+
+(* a function parameter: extendFunctionEnv binds x to the argument v in the new environment (variable mode) or puts v
+   in a register (register mode), whatever the two environments held for x before *)
+Lemma param_rewrite_sound_lemma : forall (x : bytes) (body : node) (v : Z) (sv sr : istate),
+  others_related x sv sr ->
+  fst (ieval None body (update x v (fst sv), snd sv)) <> IUnsupported ->
+  fst (ieval (Some x) (subst_reg x body) (fst sr, v)) = fst (ieval None body (update x v (fst sv), snd sv))
+  /\ others_related x (snd (ieval None body (update x v (fst sv), snd sv)))
+                      (snd (ieval (Some x) (subst_reg x body) (fst sr, v))).
+Proof.
+  intros x body v sv sr Ho Hsup.
+  destruct (rewrite_sound_lemma x body _ _ (related_at_iteration_start x v sv sr Ho) Hsup) as [Heq [_ H2]].
+  split; [exact Heq | exact H2].
+Qed.
